@@ -496,7 +496,9 @@ func addTree(
 
 			c.Type = TypeDir
 			c.Destination = NormalizeAbsoluteDirPath(destination)
-			c.FileInfo.Mode = info.Mode() &^ umask
+			// only the permission bits: the entry type already says it is a
+			// directory and packagers write Mode verbatim into their archives
+			c.FileInfo.Mode = info.Mode() &^ fs.ModeDir &^ umask
 			c.FileInfo.MTime = info.ModTime()
 			if ownedByFilesystem(c.Destination) {
 				c.Type = TypeImplicitDir
